@@ -21,10 +21,10 @@ def bounds(tier):
 
 
 def mk(variants, started=None, ended=None, edstart='present', pre_op=False, T=60, tag='', dmax=100000, resend=None,
-       blank_id=None, example=None, unique=True, meta_last=False, restart=None):
+       blank_id=None, example=None, unique=True, meta_last=False, restart=None, edstamp=0):
     N = len(variants)
     P = {'N': N, 'variants': list(variants), 'started': started, 'ended': ended, 'edstart': edstart,
-         'pre_op': pre_op, 'resend': resend, 'blank_id': blank_id, 'meta_last': meta_last, 'restart': restart}
+         'pre_op': pre_op, 'resend': resend, 'blank_id': blank_id, 'meta_last': meta_last, 'restart': restart, 'edstamp': edstamp}
     sym = [('s%d' % i, 'str') for i in range(N)]
     strs = [n for n, _ in sym]
     # story IDs need not be unique (roStoryAppend does not de-duplicate): in the 'dup-ids' cells the solver may
@@ -59,6 +59,8 @@ def mk(variants, started=None, ended=None, edstart='present', pre_op=False, T=60
         cid += '/story-metadata-after-items'
     if restart is not None:
         cid += '/then-new-roEdStart'
+    if edstamp:
+        cid += '/roEdStart-with-zone'
     # concrete anchors use FRACTIONAL durations (the symbolic run uses exact integers, stub S3): the real float()
     # parsing of "12.5"-style texts is exercised here
     ex = example
@@ -122,6 +124,16 @@ def cells(tier):
     out.append(mk(['SD', 'TT+MT'], restart=2, T=T))
     out.append(mk(['SD', 'MT'], restart=2, edstart='absent', T=T))
     out.append(mk(['SD', 'SD'], restart=2, started=[1, None], ended=[None, 2], T=T))
+    # zone designators: aware roEdStart with naive story stamps, naive roEdStart with aware story stamps, both aware
+    out.append(mk(['SD', 'TT+MT'], edstamp=3, T=T))
+    out.append(mk(['SD', 'TT+MT'], started=[1, None], ended=[None, 2], edstamp=3, T=T))
+    out.append(mk(['SD', 'MT'], started=[None, 4], ended=[3, None], T=T))
+    out.append(mk(['TT', 'SD'], started=[4, None], ended=[None, 4], edstamp=3, T=T))
+    out.append(mk(['SD', 'MT'], restart=4, started=[1, None], T=T))
+    out.append(mk(['SD', 'SD', 'TT'], edstamp=3, T=T, dmax=10000))
+    # no story at all (roCreate without stories, or every story deleted): the sum of nothing is 0
+    for ed in ('present', 'absent'):
+        out.append(mk([], edstart=ed, T=T))
     # after a reordering merge the relations hold again
     out.append(mk(['SD', 'TT+MT', 'SD+TT+MT'], pre_op=True, T=T, dmax=100000 if tier == 'thorough' else 10000))
     out.append(mk(['SD', 'MT'], pre_op=True, started=[1, None], T=T))
